@@ -14,10 +14,26 @@ import json
 import os
 import re
 
-from vlib import read_jsonl, zlit, canon_hash
+from vlib import zlit, canon_hash
 
 O_ARRIVE, O_REPLY, O_FIRE, O_CANCEL, O_STOP, O_CIF, O_RESET, O_RESTART, O_DISPATCH, O_FINISH, O_CTL, O_REQUEST, O_THEN, O_RETUNE = range(14)
 OPNAMES = ["Arrive", "Reply", "TimerFire", "Cancel", "Stop", "CancelInFlight", "Reset", "Restart", "Dispatch", "Finish", "Ctl", "Request", "Then", "Retune"]
+
+def read_jsonl(path):
+    """one JSON value per line; a torn last line (harness process died) is dropped, the caller notices the missing record"""
+    out = []
+    if not os.path.exists(path):
+        return out
+    for line in open(path, errors="replace"):
+        line = line.strip()
+        if not line:
+            continue
+        try:
+            out.append(json.loads(line))
+        except ValueError:
+            break
+    return out
+
 
 KNOWN_ORDER = "stash-order:held-messages-reordered-across-rounds"
 KNOWN_TAINT = "counters:cancelInFlightRequests-inside-completeRequest"
@@ -221,7 +237,7 @@ def run(ctx):
     with open(os.path.join(ctx.work, "c16_ops.jsonl"), "w") as f:
         for c in cases:
             f.write(json.dumps(c) + "\n")
-    for fn in ("c16_ops_out.jsonl", "c16_stress_out.jsonl", "c16_race_out.jsonl", "c16_witness_order.jsonl", "c16_grain_out.jsonl", "c16_grain_panic_out.jsonl"):
+    for fn in ("c16_ops_out.jsonl", "c16_stress_out.jsonl", "c16_race_out.jsonl", "c16_witness_order.jsonl", "c16_grain_out.jsonl", "c16_grain_panic_out.jsonl", "c16_restart_out.jsonl"):
         p = os.path.join(ctx.work, fn)
         if os.path.exists(p):
             os.remove(p)
@@ -234,8 +250,9 @@ def run(ctx):
     wit = read_jsonl(os.path.join(ctx.work, "c16_witness_order.jsonl"))
     grain = read_jsonl(os.path.join(ctx.work, "c16_grain_out.jsonl"))
     gpanic = read_jsonl(os.path.join(ctx.work, "c16_grain_panic_out.jsonl"))
+    restart = read_jsonl(os.path.join(ctx.work, "c16_restart_out.jsonl"))
     ctx.log("harness done rc=%d" % rc)
-    harness_ok = rc == 0 and len(outs) == len(cases) and stress and race and wit and grain and gpanic
+    harness_ok = rc == 0 and len(outs) == len(cases) and stress and race and wit and grain and gpanic and len(restart) == 2
     if not harness_ok:
         ctx.tie_broken("go-harness actor TestVerifC16*", out[-4000:])
     if len(outs) != len(cases):
@@ -371,6 +388,11 @@ Eval vm_compute in (nth %d (trace %s (init %s) [%s]) (observe (init 0))).
             ctx.violation("grain-panic:" + re.sub(r"[^a-z]+", "-", m.lower())[:48].strip("-"),
                           "C16 grain, blocking request whose continuation panics on the turn (two messages held behind it): " + m,
                           {"driver": "TestVerifC16GrainPanic", "observed": {k: v for k, v in s.items() if k != "Violations"}})
+    for s in restart:
+        for m in (s.get("Violations") or [])[:2]:
+            ctx.violation("restart-on-panic:" + re.sub(r"[^a-z]+", "-", m.lower())[:48].strip("-"),
+                          "C16 real actors, Receive issues a request (Then registered) and panics, supervisor restarts the actor (mode %s): %s" % (s.get("Mode"), m),
+                          {"driver": "TestVerifC16RestartOnPanic", "observed": {k: v for k, v in s.items() if k != "Violations"}})
     for r in race:
         for m in (r.get("Violations") or [])[:1]:
             ctx.violation("register-race:limit", "concurrent registerRequestState: " + m, {"driver": "TestVerifC16RegisterRace", "detail": r})
@@ -410,6 +432,7 @@ Eval vm_compute in (nth %d (trace %s (init %s) [%s]) (observe (init 0))).
         "model_tainted_cases": sum(1 for v in (verdicts or []) if v[1] >= 0), "model_overtaken_cases": sum(1 for v in (verdicts or []) if v[2] == 1),
         "oracle_complaint_kinds": kinds, "known_finding_hits": known_seen, "cancel_in_flight_policy": policy,
         "stress_totals": st_tot, "grain_totals": [{k: v for k, v in g_.items() if k != "Violations"} for g_ in grain],
+        "restart_on_panic_scenario": [{k: v for k, v in g_.items() if k != "Violations"} for g_ in restart],
         "grain_panic_scenario": [{k: v for k, v in g_.items() if k != "Violations"} for g_ in gpanic],
         "panicking_continuations_in_op_sequences": sum(o.get("Panics", 0) for o in outs), "register_race": [{k: v for k, v in r.items() if k != "Violations"} for r in race],
         "samples": [{"ops": pretty_ops(cases[i]["Ops"])[:14], "max": cases[i]["Max"]} for i in (0, 1, n_corpus, min(len(cases) - 1, n_corpus + 1))],
